@@ -37,6 +37,8 @@ def ft_sh_phase_screen(r0, N, delta, L0, l0, FFT=None, seed=None):
     Returns:
         ndarray: numpy array representing phase screen in radians
     """
+    N = int(N)      # (as in ft_phase_screen)
+
     R = numpy.random.default_rng(seed)
 
     D = N * delta
@@ -115,6 +117,9 @@ def ft_phase_screen(r0, N, delta, L0, l0, FFT=None, seed=None):
     Returns:
         ndarray: numpy array representing phase screen in radians
     """
+    # (a Python int: -N wraps around for a size held as an unsigned NumPy integer,
+    # the frequency grid came out empty and indexing it raised IndexError)
+    N = int(N)
     delta = float(delta)
     r0 = float(r0)
     L0 = float(L0)
